@@ -172,7 +172,22 @@ pub fn main(args: &[String]) {
                         if inside(it) && !parent_inside {
                             let fi = fitems.iter().find(|x| x.path == it.path);
                             match (oi, fi) {
-                                (Some(oi), Some(fi)) => writeln!(out, "NODE {} {} stmt {} {} {}", rid, it.path, if it.in_anon { "inrange-anon" } else { "inrange" }, hex(slice(&full, fi.start, fi.end).as_bytes()), hex(slice(&o, oi.start, oi.end).as_bytes())).unwrap(),
+                                (Some(oi), Some(fi)) => {
+                                    let (exp, obs) = (slice(&full, fi.start, fi.end), slice(&o, oi.start, oi.end));
+                                    // a statement whose out-of-range parent is collapsed onto one line by the whole-file run (collapse_simple_statement):
+                                    // identified by the whole-file run with collapsing switched off giving exactly the range run's text
+                                    let mut class = if it.in_anon { "inrange-anon" } else { "inrange" };
+                                    if exp != obs && class == "inrange" && !words.iter().any(|w| w == "collapse_simple_statement=Never") && words.iter().any(|w| w.starts_with("collapse_simple_statement=")) {
+                                        let w2: Vec<String> = words.iter().map(|w| if w.starts_with("collapse_simple_statement=") { "collapse_simple_statement=Never".to_string() } else { w.clone() }).collect();
+                                        let r2: Vec<&str> = w2.iter().map(|s| s.as_str()).collect();
+                                        if let Outcome::Ok(f2) = format_guarded(&src, config(&r2), None) {
+                                            if let Some(items2) = collect(&f2, v) {
+                                                if let Some(i2) = items2.iter().find(|x| x.path == it.path) { if slice(&f2, i2.start, i2.end) == obs { class = "inrange-collapsed-parent"; } }
+                                            }
+                                        }
+                                    }
+                                    writeln!(out, "NODE {} {} stmt {} {} {}", rid, it.path, class, hex(exp.as_bytes()), hex(obs.as_bytes())).unwrap()
+                                }
                                 _ => writeln!(out, "NODE {} {} stmt inrange - MISSING", rid, it.path).unwrap(),
                             }
                         } else if !inside(it) && !contains_inside && !parent_inside {
